@@ -264,6 +264,7 @@ if TYPE_CHECKING:
     from tealer.teal.functions import Function
     from tealer.teal.basic_blocks import BasicBlock
     from tealer.teal.instructions.instructions import Instruction
+    from tealer.teal.subroutine import Subroutine
 
 
 class IncorrectDataflowTransactionContextInitialization(Exception):
@@ -711,10 +712,30 @@ class DataflowTransactionContext(ABC):  # pylint: disable=too-few-public-methods
             and len(block.called_subroutine.retsub_blocks) != 0
         ):
             # this block is the `callsub block` and `block.sub_return_point` is the block that will be executed after subroutine.
-            livein_information = self._intersection(
-                key, livein_information, liveout[block.sub_return_point]
-            )
+            # The execution either returns to `block.sub_return_point` or ends in the called subroutine(s).
+            continue_information = liveout[block.sub_return_point]
+            for leaf_block in self._leaf_blocks_of_call(block.called_subroutine):
+                continue_information = self._union(key, continue_information, liveout[leaf_block])
+            livein_information = self._intersection(key, livein_information, continue_information)
         return livein_information
+
+    @staticmethod
+    def _leaf_blocks_of_call(subroutine: "Subroutine") -> List["BasicBlock"]:
+        """Return blocks at which the execution can end while executing the subroutine."""
+        leaf_blocks: List["BasicBlock"] = []
+        worklist = [subroutine]
+        seen = []
+        while worklist:
+            sub = worklist.pop()
+            if sub in seen:
+                continue
+            seen.append(sub)
+            for bi in sub.blocks:
+                if leaf_block_global(bi):
+                    leaf_blocks.append(bi)
+                elif bi.is_callsub_block:
+                    worklist.append(bi.called_subroutine)
+        return leaf_blocks
 
     def _merge_information_backward(
         self,
